@@ -13,10 +13,10 @@ use std::collections::BTreeMap;
 fn tables() -> BTreeMap<String, FnSpec> {
     let mut fns = BTreeMap::new();
     // lp: logging probe that always succeeds; fp: logging probe that always fails
-    fns.insert("lp".to_string(), FnSpec { cacheable: false, fail_on: vec![], fail_first: 0 });
-    fns.insert("fp".to_string(), FnSpec { cacheable: false, fail_on: vec![], fail_first: u32::MAX });
+    fns.insert("lp".to_string(), FnSpec { cacheable: false, fail_on: vec![], fail_first: 0, uncacheable_after: 0 });
+    fns.insert("fp".to_string(), FnSpec { cacheable: false, fail_on: vec![], fail_first: u32::MAX, uncacheable_after: 0 });
     // cp: cacheable probe (only its argument's evaluation is of interest here)
-    fns.insert("cp".to_string(), FnSpec { cacheable: true, fail_on: vec![], fail_first: 0 });
+    fns.insert("cp".to_string(), FnSpec { cacheable: true, fail_on: vec![], fail_first: 0, uncacheable_after: 0 });
     fns
 }
 
@@ -407,6 +407,49 @@ fn family() -> Vec<EvalCase> {
             let keys = ["k3", "k1", "k2", "k0"];
             let m: BTreeMap<String, Expr> = keys.iter().take(n).map(|s| s.to_string()).zip(items).collect();
             out.push(mk_case(Expr::Map(m)));
+        }
+    }
+    // membership in a list literal: every item of the list is evaluated (once, in order) whether or not an earlier item
+    // already equals the item looked for; lists of 3 and of 13 items, the match at each position
+    for n in [3usize, 13] {
+        for hit in 0..n {
+            for (needle_first, tail_kind) in [(false, 0u8), (false, 1), (false, 2), (true, 0), (true, 2)] {
+                let needle = || Expr::value(77);
+                let items: Vec<Expr> = (0..n)
+                    .map(|i| {
+                        if i == hit {
+                            Expr::value(77)
+                        } else if i == n - 1 && hit != n - 1 {
+                            match tail_kind {
+                                0 => Expr::func("lp", Expr::value(95_000 + i as i128)),
+                                1 => Expr::div(Expr::value(1), Expr::value(0)),
+                                _ => Expr::add(Expr::value(1), Expr::Value(Value::Float(1.0))),
+                            }
+                        } else {
+                            Expr::index(Expr::func("lp", Expr::value(95_000 + i as i128)), Index::Vec(1))
+                        }
+                    })
+                    .collect();
+                let e = if needle_first {
+                    // `item in [..]` written with the item from the input / from a call
+                    Expr::contains(Expr::Vec(items), Expr::index(Expr::func("lp", Expr::value(77)), Index::Vec(1)))
+                } else {
+                    Expr::contains(Expr::Vec(items), needle())
+                };
+                out.push(mk_case(e));
+            }
+        }
+    }
+    // else-if ladders whose conditions repeat one subject: the subject is evaluated for every condition that is reached
+    for len in 2..=4usize {
+        for taken in 0..=len {
+            let subject = || Expr::index(Expr::func("lp", Expr::value(5)), Index::Vec(1));
+            let mut e = Expr::value("else".to_string());
+            for k in (0..len).rev() {
+                let want = if k == taken { 5 } else { 100 + k as i128 };
+                e = Expr::iif(Expr::eq(subject(), Expr::value(want)), Expr::value(k as i128), e);
+            }
+            out.push(mk_case(e));
         }
     }
     // long lists and maps: every item once, in order, up to the failing one
